@@ -1,3 +1,3 @@
 from . import emitprops
 def run(tier, seed):
-    return emitprops.run('C04', tier, seed, also_hir=True)
+    return emitprops.run('C04', tier, seed, also_hir=True, exec_layer=True)
